@@ -117,6 +117,10 @@ fn gen_file(rng: &mut Rng, keys: &[String]) -> String {
                 }
             }
         }
+        // a carriage return that is part of the line's content (only one CR directly before the LF is the terminator)
+        if rng.chance(1, 8) {
+            s.push_str(rng.s(&["\r", "\r\r", "a\r", "\rあ"]));
+        }
         let last = i + 1 == n;
         if !(last && rng.chance(1, 3)) {
             s.push_str(if rng.chance(1, 4) { "\r\n" } else { "\n" });
@@ -215,6 +219,28 @@ pub fn run(ctx: &Ctx, rep: &mut Report) {
             }
         }
         world.res.write("cases.jsonl", &cases);
+        // inputs of the Python dictionary-building entry points: the lexicon split over files whose command
+        // order is not their alphabetical order; expected outputs are the library's own
+        if !threads_stage {
+            world.res.write("matrix.def", &world.matrix_text);
+            let rows: Vec<String> = world.sys.entries.iter().map(|e| world.sys.row_csv(e, None)).collect();
+            let cut = 1 + rng.below(rows.len().max(2) - 1);
+            let mut lex = vec![];
+            for (name, part) in [("z_first.csv", &rows[..cut.min(rows.len())]), ("a_second.csv", &rows[cut.min(rows.len())..])] {
+                if !part.is_empty() {
+                    world.res.write(name, &(part.join("\n") + "\n"));
+                    lex.push(name.to_string());
+                }
+            }
+            let mut ub = vec![];
+            for (i, csv) in world.user_csvs.iter().enumerate() {
+                let name = format!("user{}.csv", i);
+                world.res.write(&name, csv);
+                ub.push(json!({"lex": [name], "expect": format!("user{}.dic", i), "description": "vh-user"}));
+            }
+            // user dictionaries are compiled against the system dictionary alone: only the first one is independent of the others
+            world.res.write("build.json", &serde_json::to_string(&json!({"matrix": "matrix.def", "lex": lex, "expect": "system.dic", "description": "vh", "users": ub})).unwrap());
+        }
         rep.eval();
         let mut cmd = Command::new("python3");
         cmd.arg(&driver).arg(&dir).arg(&pypkg).arg(format!("{}", ctx.seed.wrapping_add(wi)));
@@ -236,7 +262,7 @@ pub fn run(ctx: &Ctx, rep: &mut Report) {
                         rep.count("python_driver_errors", 1);
                     }
                 } else if let Ok(v) = serde_json::from_str::<Value>(stdout.trim()) {
-                    for k in ["cases", "morphemes", "fields_compared", "splits_compared", "lookups", "history_ops", "history_probes", "python_exceptions", "thread_results", "projection_checks", "pretokenizer_calls"] {
+                    for k in ["cases", "morphemes", "fields_compared", "splits_compared", "lookups", "history_ops", "history_probes", "python_exceptions", "thread_results", "projection_checks", "pretokenizer_calls", "py_builds"] {
                         rep.count(&format!("py_{}", k), v[k].as_u64().unwrap_or(0));
                     }
                     if let Some(ms) = v["mismatches"].as_array() {
@@ -313,6 +339,9 @@ pub fn run(ctx: &Ctx, rep: &mut Report) {
             rep.count("cli_runs_compared", 1);
             if content.split_inclusive('\n').any(|l| l == "\n" || l == "\r\n") {
                 rep.count("cli_files_with_blank_lines", 1);
+            }
+            if content.split_inclusive('\n').any(|l| l.strip_suffix('\n').map(|x| x.strip_suffix('\r').unwrap_or(x)).unwrap_or(l).ends_with('\r')) {
+                rep.count("cli_lines_whose_content_ends_with_cr", 1);
             }
             if got != expected {
                 // first differing line
